@@ -74,7 +74,11 @@ CANARIES = [
     ('range-skip-existing-start', 'C08', 'src/cursor.rs', '                    if excluded {\n                        self.c.next();\n                    }', '                    self.c.next();'),
     ('cursor-underflow-empty-node', 'C08', 'src/cursor.rs', 'if elem.index + 1 >= page_node.len() {', 'if elem.index >= (page_node.len() - 1) {'),
     ('cursor-current-on-branch', 'C08', 'src/cursor.rs', '                if !n.leaf() {\n                    return None;\n                }\n', ''),
-    ('cursor-pop-root', 'C08', 'src/cursor.rs', '                        if self.stack.len() == 1 {\n                            return None;\n                        }\n', ''),
+    ('cursor-pop-root', 'C08', 'src/cursor.rs', '                    if self.stack.len() == 1 {\n                        return false;\n                    }\n', ''),
+    ('cursor-stops-at-emptied-leaf', 'C07', 'src/cursor.rs', '        while self.on_emptied_leaf() {', '        while false {'),
+    ('cursor-skips-one-entry-leaf', 'C07', 'src/cursor.rs', '                n.leaf() && e.index >= n.len()', '                n.leaf() && e.index + 1 >= n.len()'),
+    ('cursor-advance-reports-end-early', 'C08', 'src/cursor.rs', '            self.seek_first();\n            return true;', '            self.seek_first();\n            return false;'),
+    ('cursor-seek-first-second-child', 'C08', 'src/cursor.rs', '            self.stack.push(SearchPath {\n                index: 0,\n                id: PageNodeID::Page(page_id),\n            });\n        }\n    }\n\n    // Moves', '            self.stack.push(SearchPath {\n                index: 1,\n                id: PageNodeID::Page(page_id),\n            });\n        }\n    }\n\n    // Moves'),
     ('index-no-slot-before', 'C08', 'src/page_node.rs', '                i = i.saturating_sub(1);\n', ''),
     ('index-exact-off-by-one', 'C08', 'src/page_node.rs', '            Ok(i) => (i, true),', '            Ok(i) => (i + 1, true),'),
     ('index-page-no-bound', 'C07', 'src/page_node.rs', '                if index >= p.count as usize {\n                    return 0;\n                }\n', ''),
